@@ -1117,7 +1117,14 @@ func (z *Decimal) SetFloat64(x float64) *Decimal {
 	z.form = finite
 	fmant, exp2 := math.Frexp(x) // get normalized mantissa
 	exp2 -= 53
-	z.mant = z.mant.setUint64(1<<52 | (math.Float64bits(fmant) & (1<<52 - 1)))
+	m := 1<<52 | (math.Float64bits(fmant) & (1<<52 - 1))
+	for exp2 < 0 && m&1 == 0 {
+		// strip trailing zero bits: the smaller power of two below is then
+		// exact whenever x has an exact representation with z.prec digits.
+		m >>= 1
+		exp2++
+	}
+	z.mant = z.mant.setUint64(m)
 	z.exp = int32(len(z.mant))*_DW - int32(dnorm(z.mant))
 	if exp2 != 0 {
 		// multiply / divide by 2**exp with increased precision
